@@ -8,8 +8,9 @@
 (*  number of viewgrams."                                                                     *)
 (*                                                                                            *)
 (* A configuration is a record                                                                *)
-(*   c = [views, maxSeg, s90, s180, sseg, minTof, maxTof]                                     *)
-(* views >= 1 views numbered 0..views-1; segments -maxSeg..maxSeg are processed;              *)
+(*   c = [views, minSeg, maxSeg, s90, s180, sseg, minTof, maxTof]                             *)
+(* views >= 1 views numbered 0..views-1; segments minSeg..maxSeg (minSeg <= 0 <= maxSeg) are  *)
+(* processed - the range need not be symmetric (ProjDataInfo::reduce_segment_range);          *)
 (* s90/s180/sseg are the *effective* symmetries: 90 degrees (which implies 180), 180 degrees, *)
 (* swap-segment.  The five symmetry classes of the projectors are                             *)
 (*   none (F,F,F)  swap-segment (F,F,T)  180 (F,T,x)  90 (T,T,x)  trivial (= F,F,F).          *)
@@ -17,7 +18,7 @@
 EXTENDS Integers, FiniteSets, Sequences, TLC
 
 Views(c) == 0 .. c.views - 1
-Segs(c) == -c.maxSeg .. c.maxSeg
+Segs(c) == c.minSeg .. c.maxSeg
 Tofs(c) == c.minTof .. c.maxTof
 AllVS(c) == Views(c) \X Segs(c)
 AllData(c) == AllVS(c) \X Tofs(c)          \* every (<<view, segment>>, TOF bin) of the data
@@ -28,9 +29,11 @@ AllData(c) == AllVS(c) \X Tofs(c)          \* every (<<view, segment>>, TOF bin)
 (* negative segment)".  View v is phi = v*180/views degrees, so 180 degrees = views (= view 0) *)
 (* and 90 degrees = views/2.  "The symmetry in phi is automatically reduced [...] when the    *)
 (* number of views is not a multiple of 4."                                                   *)
-Legal(c) == /\ c.views >= 1 /\ c.maxSeg >= 0
+Legal(c) == /\ c.views >= 1 /\ c.minSeg <= 0 /\ c.maxSeg >= 0
             /\ c.s90 => (c.s180 /\ c.views % 4 = 0)
             /\ c.s180 => c.views % 2 = 0
+            \* the set of segments must be closed under the symmetries used: +-segment needs a symmetric range
+            /\ c.sseg => c.minSeg = -c.maxSeg
 
 ViewOrbit(c, v) ==
   LET V == c.views
@@ -110,7 +113,7 @@ Balanced(c, N) == EqualSizes([s \in 0 .. N - 1 |-> Cardinality(Processed(c, s, N
 RECURSIVE ImplCountSeg(_, _, _), ImplCountView(_, _, _, _)
 ImplCountSeg(c, v, sg) == IF sg > c.maxSeg THEN 0
                           ELSE (IF IsBasic(c, <<v, sg>>) THEN NumRelated(c, <<v, sg>>) ELSE 0) + ImplCountSeg(c, v, sg + 1)
-ImplCountView(c, s, N, v) == IF v > c.views - 1 THEN 0 ELSE ImplCountSeg(c, v, -c.maxSeg) + ImplCountView(c, s, N, v + N)
+ImplCountView(c, s, N, v) == IF v > c.views - 1 THEN 0 ELSE ImplCountSeg(c, v, c.minSeg) + ImplCountView(c, s, N, v + N)
 ImplCount(c, s, N) == ImplCountView(c, s, N, s)
 
 (* ---------------------------------------------------------------------------------------- *)
